@@ -1,5 +1,5 @@
-CONSTANTS D = 2
+CONSTANTS D = 3
  NInner = 1
- M = 3
+ M = 2
  Strategy = "product"
  Mode = "batch"
